@@ -160,14 +160,31 @@ SK2TK = {
 # ---------------------------------------------------------------------------
 # recogniser: set of end positions reachable from a start position
 
-def recognise(tokens, start="SourceFile"):
+def grammar_with_known(listed):
+    """the documented grammar adjusted by the LISTED known findings (so that a native search
+    for disagreements only reports deviations that are not already recorded)"""
+    g = dict(G)
+    if "C04_DAG_OPERATOR_RESTRICTED" in listed:
+        op_first = ("Id", "XCast", "Question", "XGetDagOp")
+        not_op = tuple(sorted((FIRST["DagArg"]) - set(op_first)))
+        g["Dag"] = S(T("LParen"), NF(not_op, N("DagArg")), O(N("DagArgList")), T("RParen"))
+    if "C04_COND_WITHOUT_CLAUSE" in listed:
+        g["CondOperator"] = S(T("XCond"), T("LParen"), O(S(sep_list(N("CondClause")), O(T("Comma")))), T("RParen"))
+    if "C04_SLICE_ELEMENT_SECOND_VALUE" in listed:
+        g["SliceElement"] = S(N("Value"), O(A(S(T("DotDotDot"), N("Value")), S(T("Minus"), N("Value")), N("Value"))))
+    return g
+
+
+def recognise(tokens, start="SourceFile", g=None):
     """True iff the token-kind sequence is derivable from `start`"""
+    if g is None:
+        g = G
     toks = tuple(tokens)
     n = len(toks)
 
     @functools.lru_cache(maxsize=None)
     def nt(name, i):
-        return frozenset(ends(G[name], i))
+        return frozenset(ends(g[name], i))
 
     def ends(x, i):
         tag = x[0]
